@@ -17,7 +17,7 @@ func init() {
 		Run:      runC01,
 		Examples: true,
 		Meta: core.PropertyMeta{
-			Explanation: "Decides the data path from 'reply received for this call' to 'value returned to the caller' in the reply loops (QuorumCall, handleAsyncCall; the correctable loop's publications are C11) and in every generated quorum/async wrapper. R1: a success outcome carries exactly result #0 of the call through the QuorumFunction slot and is dominated by the true edge of the test on that same call's verdict. R2: the function gets the caller's original request and the one reply map allocated before the loop. R3: that map is written only with (nid, msg) of the response received in this iteration, only on the no-error edge, and is never deleted from, re-allocated or leaked. R4: exactly one call site, on the loop's own goroutine, preceded in every iteration by such a write; the loop functions are entered from exactly one site. R5: no call through the slot is reachable after a quorum verdict. R6: every response handed to a caller names the node of the channel that produced it, and only the stream reader attaches a message - the one it just read, routed under that message's own id. R7: every generated quorum/async stub (and the templates) converts request, replies and result with the descriptor's types and returns exactly what the raw call returned.",
+			Explanation: "Decides the data path from 'reply received for this call' to 'value returned to the caller' in the reply loops (QuorumCall, handleAsyncCall; the correctable loop's publications are C11) and in every generated quorum/async wrapper. R1: a success outcome carries exactly result #0 of the call through the QuorumFunction slot and is dominated by the true edge of the test on that same call's verdict. R2: the function gets the caller's original request and the one reply map allocated before the loop. R3: that map is written only with (nid, msg) of the response received in this iteration, only on the no-error edge, and is never deleted from, re-allocated or leaked. R4: exactly one call site, on the loop's own goroutine, preceded in every iteration by such a write; the loop functions are entered from exactly one site. R5: no call through the slot is reachable after a quorum verdict. R6: every response handed to a caller names the node of the channel that produced it, and only the stream reader attaches a message - the one it just read, routed under that message's own id. R7: every generated quorum/async stub (and the templates) converts request, replies and result with the descriptor's types and returns exactly what the raw call returned. R10: a node the per-node function leaves out is not asked (C02-T4 re-run).",
 			NotDecided:  "That gRPC delivers the bytes the server sent; that the server handler's reply is the one for this call's request beyond the message-id echo (C05 M5); value-dependent behaviour of user quorum functions; arrival orders (the rules are order-independent by construction).",
 			Trusted:     append([]string{"gRPC delivers messages unmodified", "Go map and channel semantics"}, commonTrust...),
 		},
